@@ -2,6 +2,7 @@ package harness
 
 import (
 	"fmt"
+	"hash/fnv"
 	"sort"
 	"strings"
 
@@ -364,17 +365,23 @@ func Observe(w b6.World, ids []b6.FeatureID, o obsOpts) Obs {
 			out["find/"+q.String()] = safe(func() string {
 				fs := w.FindFeatures(q)
 				var b strings.Builder
+				h := fnv.New64a()
 				for n := 0; fs.Next() && n < 500; n++ {
 					id := fs.FeatureID()
 					b.WriteString(id.String())
-					// the feature handed out by the search must be the one a lookup gives
+					// the feature handed out by the search is part of the answer:
+					// its tags and geometry are folded into a digest
 					if f := fs.Feature(); f == nil {
 						b.WriteString("(nil)")
 					} else if f.FeatureID() != id {
 						b.WriteString("(feature id differs)")
+					} else {
+						h.Write([]byte(safe(func() string { return tagsString(f) + "|" + dumpGeometry(f) })))
+						h.Write([]byte{0})
 					}
 					b.WriteString(" ")
 				}
+				fmt.Fprintf(&b, "content=%x", h.Sum64())
 				return b.String()
 			})
 		}
